@@ -52,9 +52,13 @@ def _float_point(draw, span=4.0):
 @st.composite
 def planar_graph(draw, min_nodes=2, max_nodes=8, label_kinds=("int", "str"), families=None,
                  self_listed=True, dup_locations=False, chain_steps=None):
-    fam = draw(st.sampled_from(families or ["grid", "grid", "float", "chain", "chain", "oneway", "twocomp", "mesh"]))
+    fam = draw(st.sampled_from(families or ["grid", "grid", "float", "chain", "chain", "oneway", "twocomp", "mesh", "fork"]))
     kind = draw(st.sampled_from(list(label_kinds)))
     n = draw(INT(max(min_nodes, 4 if fam in ("chain", "twocomp") else min_nodes), max(max_nodes, min_nodes)))
+    if fam == "fork":
+        stem = pick(draw, [1, 2])
+        blen = pick(draw, [2, 2, 3]) if max_nodes >= stem + 1 + 6 else 2
+        n = stem + 1 + 2 * blen
     if fam == "mesh":
         rows = 2 if max_nodes < 9 or chance(draw, 4) else 3
         cols = max(2, min(max_nodes // rows, pick(draw, [2, 3, 3, 4])))
@@ -69,7 +73,27 @@ def planar_graph(draw, min_nodes=2, max_nodes=8, label_kinds=("int", "str"), fam
         if both and i != j and labs[i] not in nbrs[j]:
             nbrs[j].append(labs[i])
 
-    if fam == "mesh":
+    if fam == "fork":
+        # a stem that splits into two mirror-image branches: exact probability ties between the branches
+        step = pick(draw, [1.0, 1.0, 1.5])
+        oneway = chance(draw, 3)
+        for i in range(stem + 1):
+            locs.append((0.0, i * step))
+        base_x = stem * step
+        dy = pick(draw, [0.5, 1.0])
+        for sign in (1, -1):
+            for j in range(1, blen + 1):
+                locs.append((sign * dy * min(j, 2), base_x + j * step))
+        for i in range(stem):
+            add(i, i + 1, not oneway)
+        for b in range(2):
+            first = stem + 1 + b * blen
+            add(stem, first, not oneway)
+            for j in range(blen - 1):
+                add(first + j, first + j + 1, not oneway)
+        if draw(st.booleans()):  # list the second branch first at the junction
+            nbrs[stem].reverse()
+    elif fam == "mesh":
         # jittered rows x cols street grid, all streets two-way, a few diagonals: many candidates per observation
         for r in range(rows):
             for c in range(cols):
@@ -261,6 +285,33 @@ def ne_case(draw, max_nodes=8, max_len=7, families=("simple", "simple_n", "dista
     if c.get("min_prob_norm") is not None and c["min_prob_norm"] > 0.01:
         c["min_prob_norm"] = draw(st.sampled_from([None, 0.001]))
     return {"graph": g, "trace": t, "config": c}
+
+
+@st.composite
+def fork_case(draw, max_nodes=8, families=("simple", "distance", "simple_n")):
+    """Stem + two mirror-image branches, observations at the foot of the stem and far along one branch (non-emitting states
+    needed, exact ties between the branches inside the non-emitting layers), narrow width: the tie handling of pruning decides."""
+    g = draw(planar_graph(max_nodes=max(max_nodes, 8), families=["fork"], self_listed=False))
+    loc, adj = model_of(g)
+    labs = [n[0] for n in g]
+    # the first observation sits beside the stem: the first non-emitting step is then the worst one of a chain, and since a
+    # chain scores the minimum over its steps, both branches tie exactly in the deeper layers
+    t = [[loc[labs[0]][0] + pick(draw, [0.0, 0.75, 1.0, -1.0]), loc[labs[0]][1]]]
+    far = [l for l in labs if abs(loc[l][0]) >= 0.5]
+    tip = pick(draw, far)
+    eps = pick(draw, [0.0, 0.0, 0.01, 0.05])
+    t.append([loc[tip][0] + eps, loc[tip][1]])
+    if chance(draw, 4):
+        t.append([loc[tip][0], loc[tip][1] + 0.3])
+    c = draw(config(families=families, ne=True, width=None))
+    c["max_lattice_width"] = pick(draw, [1, 1, 2])
+    c["obs_noise"] = pick(draw, [0.25, 0.5, 1.0])
+    c["max_dist"] = None
+    c["max_dist_init"] = None
+    c["min_prob_norm"] = None
+    if chance(draw, 5):
+        c["obs_noise_ne"] = 2 * c["obs_noise"]
+    return {"graph": g, "trace": t, "config": c, "gen": "fork"}
 
 
 def sizes(tier):
